@@ -1,4 +1,5 @@
 from fw import PropertyCheck
+import fam_world
 import fam_swap
 
 
@@ -7,8 +8,10 @@ class Check(PropertyCheck):
     rule = ("calculate_lp_token_amount_to_user inputs: first provision whitelist x minimum matrix, square-root "
             "boundaries (s*s, s*s-1, ...), u128 overflow of d0*d1; later provisions balanced/unbalanced around the "
             "pool ratio and random, zero reserves, quotient overflow.  Non-trivial = Ok.  Distinct by input.")
+    rule_world = 'plus world histories: see C03'
     modelled = ["system level (deposits pulled, reserved unit, zero-share rejection) is covered by the world family"]
     assumptions = ["amounts are 128-bit"]
 
     def families(self, rng, tier):
-        return [("formulas.lp_share", fam_swap.share_cases(rng, tier))]
+        return [("formulas.lp_share", fam_swap.share_cases(rng, tier)),
+                ("world.general", fam_world.general_histories(rng, tier, n_hist={"quick": 5, "thorough": 50}[tier])), ("world.extreme", fam_world.extreme_histories(rng, tier))]
